@@ -19,7 +19,7 @@ LEVEL = 'exploration'
 EVAL_KEY = 'runs'
 C = 10.0
 TIERS = {
-    'quick': {'runs': 4000, 'opts': {}, 'chunk': 25},
+    'quick': {'runs': 12000, 'opts': {}, 'chunk': 50},
     'thorough': {'runs': 400000, 'opts': {}, 'chunk': 100, 'time_cap': 1500},
 }
 RULE = ('per run: target in {exact TT rank 1..4 with random cores, 1/(2+sum(i_k+1)), exp(-0.1 sum i_k)+0.5}; order 2..5; mode sizes '
